@@ -428,6 +428,24 @@ def explicit_ring_closure_bond(rng, smi):
     return "".join(toks[:i] + ["-"] + toks[i:])
 
 
+def explicit_h_spelling(rng, smi):
+    """respell: bracket atoms that carry no hydrogen get an explicit `H0` ([N+] -> [NH0+], [C@] -> [C@H0]); a bare `H`
+    becomes `H1`; an organic-subset atom with no room for an implicit H is left alone (its H count depends on the
+    valence model). All are documented spellings of the SAME atom."""
+    import re
+
+    def fix(m):
+        iso, el, chir, h, rest = m.group(1), m.group(2), m.group(3), m.group(4), m.group(5)
+        if h == "":
+            h = "H0"
+        elif h == "H" and rng.random() < 0.7:
+            h = "H1"
+        return "[%s%s%s%s%s]" % (iso, el, chir, h, rest)
+    out = re.sub(r"\[(\d*)([A-Z][a-z]?|[a-z][a-z]?)(@{0,2})(H\d*)?([^\]]*)\]",
+                 lambda m: fix(type("M", (), {"group": lambda self, i, m=m: m.group(i) or ""})()), smi)
+    return out if out != smi else None
+
+
 def capacity_pairs(rng):
     """molecules that contain a legal atom and, elsewhere, a sibling of the same element / charge / bond count
     that differs only in explicit H (or in nothing) - in both orders, as one chain and as two fragments"""
